@@ -35,6 +35,7 @@ Notation store := (@store G F).
 Notation state := (@state G F).
 Notation fstate := (@fstate G F T).
 Notation ans := (@ans G F).
+Notation fres := (@fres G F T).
 
 (* ------------------------------------------------------------------ *)
 (* reading the heap *)
@@ -556,5 +557,424 @@ Proof.
   split; [rewrite Lb; apply Nat.le_min_l|].
   exists s1, off. split; [reflexivity|]. split; [rewrite <- app_length; exact Fi|exact Lb].
 Qed.
+
+(* ------------------------------------------------------------------ *)
+(* runs of the composed model *)
+
+Lemma frun_app {A} (step : nat -> fstate -> A -> fres) l1 : forall l2 gen (s e : fstate),
+  frun step gen s (l1 ++ l2) = FOk e ->
+  exists b, frun step gen s l1 = FOk b /\ frun step (gen + length l1) b l2 = FOk e.
+Proof.
+  induction l1 as [|a r IH]; intros l2 gen s e H; cbn in *.
+  - exists s. rewrite Nat.add_0_r. auto.
+  - destruct (step gen s a) as [s1|] eqn:E; [|discriminate].
+    destruct (IH _ _ _ _ H) as [b [H1 H2]]. exists b. split; [exact H1|].
+    replace (gen + S (length r)) with (S gen + length r) by lia. exact H2.
+Qed.
+
+Lemma frun_app_intro {A} (step : nat -> fstate -> A -> fres) l1 : forall l2 gen (s b e : fstate),
+  frun step gen s l1 = FOk b -> frun step (gen + length l1) b l2 = FOk e ->
+  frun step gen s (l1 ++ l2) = FOk e.
+Proof.
+  induction l1 as [|a r IH]; intros l2 gen s b e H1 H2; cbn in *.
+  - inversion H1; subst. rewrite Nat.add_0_r in H2. exact H2.
+  - destruct (step gen s a) as [s1|] eqn:E; [|discriminate].
+    eapply IH; [exact H1|]. replace (S gen + length r) with (gen + S (length r)) by lia. exact H2.
+Qed.
+
+(* a generation appends one record and one call log *)
+Definition appends (s s' : fstate) : Prop :=
+  exists r c, f_log s' = f_log s ++ [r] /\ f_calls s' = f_calls s ++ [c].
+
+Lemma ffinish_appends gen (fs : fstate) h1 (d1 : list (V.draw T)) k1 off newpop :
+  appends fs (ffinish evaluate fle gen fs h1 d1 k1 off newpop).
+Proof.
+  unfold appends, ffinish. destruct (eval_heap evaluate h1 (invalid_of (view h1) off)) as [h2 log]. cbn. eauto.
+Qed.
+
+Lemma frun_history {A} (step : nat -> fstate -> A -> fres) :
+  (forall gen s a s', step gen s a = FOk s' -> appends s s') ->
+  forall l gen (s e : fstate), frun step gen s l = FOk e ->
+  exists rs cs, f_log e = f_log s ++ rs /\ f_calls e = f_calls s ++ cs /\
+                length rs = length l /\ length cs = length l.
+Proof.
+  intros Hstep. induction l as [|a r IH]; intros gen s e H; cbn in H.
+  - inversion H; subst. exists [], []. rewrite !app_nil_r. auto.
+  - destruct (step gen s a) as [s1|] eqn:E; [|discriminate].
+    destruct (IH _ _ _ H) as [rs [cs [E1 [E2 [L1 L2]]]]].
+    destruct (Hstep _ _ _ _ E) as [r0 [c0 [F1 F2]]].
+    exists (r0 :: rs), (c0 :: cs). rewrite E1, E2, F1, F2, <- !app_assoc. cbn. auto.
+Qed.
+
+Lemma fstep_simple_appends cxpb mutpb gen (s : fstate) a s' :
+  fstep_simple evaluate fle ltb mate_o mut_o cxpb mutpb gen s a = FOk s' -> appends s s'.
+Proof.
+  unfold fstep_simple. destruct (call_var_and _ _ _ _ _ _ _) as [s1 [e|off]]; [discriminate|].
+  intro H; inversion H. apply ffinish_appends.
+Qed.
+
+Lemma fstep_plus_appends lambda_ cxpb mutpb gen (s : fstate) a s' :
+  fstep_plus evaluate fle ltb leb add one mate_o mut_o lambda_ cxpb mutpb gen s a = FOk s' -> appends s s'.
+Proof.
+  unfold fstep_plus. destruct (call_var_or _ _ _ _ _ _ _ _ _ _ _) as [s1 [e|off]]; [discriminate|].
+  intro H; inversion H. apply ffinish_appends.
+Qed.
+
+Lemma fstep_comma_appends lambda_ cxpb mutpb gen (s : fstate) a s' :
+  fstep_comma evaluate fle ltb leb add one mate_o mut_o lambda_ cxpb mutpb gen s a = FOk s' -> appends s s'.
+Proof.
+  unfold fstep_comma. destruct (call_var_or _ _ _ _ _ _ _ _ _ _ _) as [s1 [e|off]]; [discriminate|].
+  intro H; inversion H. apply ffinish_appends.
+Qed.
+
+Section RunSim.
+Context {A : Type}.
+Variable fstep : nat -> fstate -> A -> fres.
+Variable cstep : nat -> state -> ans -> state.
+Variable okc : state -> ans -> Prop.
+Variable pre : nat -> A -> Prop.        (* the selection contract for the answer of generation gen *)
+Variable P : nat -> state -> Prop.      (* what the contract is relative to (population size) *)
+
+Fixpoint pres (gen : nat) (l : list A) : Prop :=
+  match l with [] => True | x :: r => pre gen x /\ pres (S gen) r end.
+
+Lemma pres_app l1 : forall l2 gen, pres gen (l1 ++ l2) -> pres gen l1.
+Proof. induction l1 as [|a r IH]; intros l2 gen H; cbn in *; [exact I|]. destruct H as [H1 H2]. split; [exact H1|eapply IH; exact H2]. Qed.
+
+Lemma pres_app_r l1 : forall l2 gen, pres gen (l1 ++ l2) -> pres (gen + length l1) l2.
+Proof.
+  induction l1 as [|a r IH]; intros l2 gen H; cbn in *; [rewrite Nat.add_0_r; exact H|].
+  destruct H as [_ H2]. replace (gen + S (length r)) with (S gen + length r) by lia. apply IH. exact H2.
+Qed.
+
+Hypothesis step_sim : forall gen fs cs x fs',
+  SRel fs cs -> P gen cs -> pre gen x -> fstep gen fs x = FOk fs' ->
+  exists a, okc cs a /\ off_invalid_distinct (a_off a) /\ SRel fs' (cstep gen cs a) /\ P (S gen) (cstep gen cs a).
+
+Lemma frun_sim : forall l gen (fs : fstate) (cs : state) (fe : fstate),
+  SRel fs cs -> P gen cs -> pres gen l -> frun fstep gen fs l = FOk fe ->
+  exists answers, length answers = length l /\ run_ok cstep okc gen cs answers /\
+     Forall (fun a => off_invalid_distinct (a_off a)) answers /\
+     SRel fe (run_from cstep gen cs answers).
+Proof.
+  induction l as [|x r IH]; intros gen fs cs fe S Pc Hp H; cbn in H.
+  - inversion H; subst. exists []. cbn. auto.
+  - destruct Hp as [Hp1 Hp2]. destruct (fstep gen fs x) as [fs1|] eqn:E; [|discriminate].
+    destruct (step_sim gen fs cs x fs1 S Pc Hp1 E) as [a [Oa [Da [S1 P1]]]].
+    destruct (IH _ _ _ _ S1 P1 Hp2 H) as [answers [L [Ok [Ds Sf]]]].
+    exists (a :: answers). cbn. split; [lia|]. split; [split; assumption|]. split; [constructor; assumption|exact Sf].
+Qed.
+
+End RunSim.
+
+Lemma pres_const {A} (pre0 : A -> Prop) l : forall gen, Forall pre0 l -> pres (fun _ => pre0) gen l.
+Proof. induction l as [|a r IH]; intros gen H; cbn; [exact I|]. inversion H; subst. split; [assumption|apply IH; assumption]. Qed.
+
+(* ------------------------------------------------------------------ *)
+(* the initial heap and generation 0 *)
+
+(* what the loops need of the caller's population:
+   every individual has a Fitness object, the members are allocated objects, two different members do
+   not share a Fitness object, a fitness set beforehand equals evaluate(genotype) *)
+Record finit_ok (h0 : heap) (pop : list uid) : Prop := mk_finit_ok {
+  fi_wf : V.wf_heap h0;
+  fi_pop : V.pop_ok h0 pop;
+  fi_own : forall u v, In u pop -> In v pop ->
+           V.fitref (V.ind_at h0 u) = V.fitref (V.ind_at h0 v) -> u = v;
+  fi_honest : Forall (fun u => V.fit_of h0 u = None \/
+                               V.fit_of h0 u = Some (evaluate (V.geno (V.ind_at h0 u)))) pop }.
+
+(* the live objects at the start: the members of the population *)
+Definition st_of (h : heap) (pop : list uid) : store :=
+  fun u => if existsb (Nat.eqb u) pop then view h u else None.
+
+Lemma st_of_inv h pop u i : st_of h pop u = Some i -> In u pop /\ u < V.ni h /\ i = cont h u.
+Proof.
+  unfold st_of. destruct (existsb (Nat.eqb u) pop) eqn:E; [|discriminate].
+  apply existsb_exists in E. destruct E as [v [Hv Ev]]. apply Nat.eqb_eq in Ev. subst v.
+  intro H. apply view_inv in H. destruct H as [H1 H2]. auto.
+Qed.
+
+Lemma st_of_in h pop u : In u pop -> u < V.ni h -> st_of h pop u = Some (cont h u).
+Proof.
+  intros I L. unfold st_of.
+  assert (E : existsb (Nat.eqb u) pop = true) by (apply existsb_exists; exists u; split; [exact I|apply Nat.eqb_refl]).
+  rewrite E. apply view_some. exact L.
+Qed.
+
+Lemma init_sim h0 pop : finit_ok h0 pop ->
+  Rel h0 (st_of h0 pop) /\ init_ok evaluate (st_of h0 pop) pop /\ Forall (live (st_of h0 pop)) pop.
+Proof.
+  intros [W Po Own Hon]. unfold V.pop_ok in Po. split; [|split].
+  - constructor.
+    + exact W.
+    + intros u i E. apply st_of_inv in E. destruct E as [_ [L E]]. auto.
+    + intros u v i j Eu Ev. apply st_of_inv in Eu. apply st_of_inv in Ev.
+      apply Own; [exact (proj1 Eu)|exact (proj1 Ev)].
+  - unfold init_ok. apply Forall_forall. intros u Hu. rewrite Forall_forall in Po, Hon.
+    exists (cont h0 u). split; [apply st_of_in; auto|]. cbn. exact (Hon u Hu).
+  - apply Forall_forall. intros u Hu. rewrite Forall_forall in Po. unfold live.
+    rewrite (st_of_in h0 pop u Hu (Po u Hu)). discriminate.
+Qed.
+
+Lemma gen0_sim h0 (d : list (V.draw T)) pop : finit_ok h0 pop ->
+  SRel (fgen0 evaluate fle (finit h0 d pop)) (gen0 evaluate fle (init (st_of h0 pop) pop)).
+Proof.
+  intro H. destruct (init_sim h0 pop H) as [R [_ L]]. unfold fgen0, gen0.
+  apply (ffinish_sim 0 (finit h0 d pop) (init (st_of h0 pop) pop)); try reflexivity; assumption.
+Qed.
+
+(* ------------------------------------------------------------------ *)
+(* reading the invariants of the loop model back on the heap *)
+
+Lemma InvC_fview (fs : fstate) (cs : state) : SRel fs cs -> InvC evaluate cs -> InvC evaluate (fview fs).
+Proof.
+  intros [R Ep Ec El Es Eb Lv] [A B C D E H J].
+  assert (V0 : forall u, In u (s_pop cs) -> view (f_hp fs) u = s_st cs u) by (apply rel_view_on; assumption).
+  constructor; unfold fview; cbn; rewrite ?Ep, ?Ec, ?El, ?Es; try assumption.
+  - apply Forall_forall. intros u Hu. rewrite Forall_forall in A. destruct (A u Hu) as [i [H1 H2]].
+    exists i. rewrite (V0 u Hu). auto.
+  - destruct E as [E|[l [r [E1 E2]]]]; [left; exact E|right]. exists l, r. split; [exact E1|].
+    rewrite E2. symmetry. apply snap_ext. exact V0.
+Qed.
+
+Lemma fview_history (b e : fstate) rs cs :
+  f_log e = f_log b ++ rs -> f_calls e = f_calls b ++ cs -> extends_history (fview b) (fview e).
+Proof. intros H1 H2. exists rs, cs. auto. Qed.
+
+(* ------------------------------------------------------------------ *)
+(* who is evaluated in a generation, in the vocabulary of the heap and of C02's call log *)
+
+Definition invalid_in (h : heap) (o : nat) : bool :=
+  match V.fit_of h o with None => true | Some _ => false end.
+
+(* the generation leading from b to s' called varAnd / varOr on inp, which returned off in state s1:
+   evaluate was called exactly on the offspring whose fitness was invalid then, in order, each once, with
+   their genotype; nevals is that number; every offspring that went through mate / mutate is among them,
+   and an offspring that was not evaluated went through no operator and carries the genotype and the
+   valid fitness of a member of inp *)
+Definition fcalls_exact (b s' : fstate) (gen : nat) (inp : list uid) (s1 : V.st G F T) (off : list nat) : Prop :=
+  exists log r,
+    f_calls s' = f_calls b ++ [log] /\ f_log s' = f_log b ++ [r] /\
+    map fst log = filter (invalid_in (V.hp s1)) off /\ NoDup (map fst log) /\
+    Forall (fun c => snd c = V.geno (V.ind_at (V.hp s1) (fst c))) log /\
+    r_gen r = gen /\ r_nevals r = length log /\
+    (forall o, In o off -> V.varied (V.lg s1) o -> In o (map fst log)) /\
+    (forall o, In o off -> ~ In o (map fst log) ->
+       ~ V.varied (V.lg s1) o /\
+       exists p f, In p inp /\ V.fit_of (f_hp b) p = Some f /\ V.fit_of (V.hp s1) o = Some f /\
+                   V.geno (V.ind_at (V.hp s1) o) = V.geno (V.ind_at (f_hp b) p)).
+
+Lemma filter_contents h off :
+  map fst (filter inv_content (contents h off)) = filter (invalid_in h) off.
+Proof.
+  induction off as [|o r IH]; [reflexivity|].
+  change (contents h (o :: r)) with ((o, cont h o) :: contents h r).
+  cbn [filter]. unfold inv_content at 1, invalid_in at 1. cbn [snd cont fit].
+  destruct (V.fit_of h o); cbn [map fst]; rewrite IH; reflexivity.
+Qed.
+
+Lemma fcalls_of (b s' : fstate) (cs cs' : state) gen inp s1 off :
+  SRel b cs -> SRel s' cs' -> var_post (f_hp b) inp (V.hp s1) (V.lg s1) off ->
+  calls_exact cs cs' gen (contents (V.hp s1) off) -> off_invalid_distinct (contents (V.hp s1) off) ->
+  fcalls_exact b s' gen inp s1 off.
+Proof.
+  intros S S' VPo [log [r [E1 [E2 [E3 [E4 [E5 [E6 E7]]]]]]]] D.
+  rewrite filter_contents in E3.
+  exists log, r.
+  split; [rewrite (sr_calls _ _ S'), (sr_calls _ _ S); exact E1|].
+  split; [rewrite (sr_log _ _ S'), (sr_log _ _ S); exact E2|].
+  split; [exact E3|]. split; [exact (E7 D)|]. split.
+  { eapply Forall_impl; [|exact E4]. intros c [i [I [_ Gi]]]. apply contents_in in I. destruct I as [_ ->]. symmetry. exact Gi. }
+  split; [exact E5|]. split; [exact E6|]. split.
+  - intros o Ho Hv. rewrite E3. apply filter_In. split; [exact Ho|]. unfold invalid_in.
+    rewrite (vp_varied _ _ _ _ _ VPo o Ho Hv). reflexivity.
+  - intros o Ho Hn. destruct (V.fit_of (V.hp s1) o) as [f|] eqn:Ef.
+    + destruct (vp_valid _ _ _ _ _ VPo o f Ho Ef) as [Nv [p [Hp [Hg Hf]]]].
+      split; [exact Nv|]. exists p, f. auto.
+    + exfalso. apply Hn. rewrite E3. apply filter_In. split; [exact Ho|]. unfold invalid_in. rewrite Ef. reflexivity.
+Qed.
+
+(* ------------------------------------------------------------------ *)
+(* eaSimple *)
+
+Section Simple.
+Hypothesis mate_distinct : forall k x y, V.ret_distinct (V.ma_r1 (mate_o k x y)) (V.ma_r2 (mate_o k x y)).
+Variables cxpb mutpb : T.
+
+Notation fsimple := (full_simple evaluate fle ltb mate_o mut_o cxpb mutpb).
+Notation fstep := (fstep_simple evaluate fle ltb mate_o mut_o cxpb mutpb).
+
+(* a run of the composed model that returns is a run of the loop model whose oracle answers satisfy
+   their contracts *)
+Lemma full_simple_link h0 d pop sels (b : fstate) :
+  finit_ok h0 pop -> Forall (sel_in (length pop) (length pop)) sels ->
+  fsimple h0 d pop sels = FOk b ->
+  exists answers, length answers = length sels /\
+    init_ok evaluate (st_of h0 pop) pop /\
+    run_ok (step_simple evaluate fle) ans_ok_simple 1 (gen0 evaluate fle (init (st_of h0 pop) pop)) answers /\
+    Forall (fun a => off_invalid_distinct (a_off a)) answers /\
+    SRel b (ea_simple evaluate fle (st_of h0 pop) pop answers).
+Proof.
+  intros Hi Hs H. unfold full_simple in H. destruct (init_sim h0 pop Hi) as [_ [I0 _]].
+  destruct (frun_sim fstep (step_simple evaluate fle) ans_ok_simple
+              (fun _ => sel_in (length pop) (length pop)) (fun _ cs => length (s_pop cs) = length pop))
+    with (l := sels) (gen := 1) (fs := fgen0 evaluate fle (finit h0 d pop))
+         (cs := gen0 evaluate fle (init (st_of h0 pop) pop)) (fe := b) as [answers [L [Ok [Ds Sf]]]].
+  - intros gen fs cs x fs' S Pc Hp E. rewrite <- Pc in Hp.
+    destruct (fstep_simple_sim mate_distinct cxpb mutpb gen fs cs x fs' S Hp E) as [s1 [off [_ [_ [Lo [Oa [Da S1]]]]]]].
+    exists (var_ans x s1 off). split; [exact Oa|]. split; [exact Da|]. split; [exact S1|].
+    unfold step_simple. rewrite finish_gen_pop. unfold var_ans. cbn [a_off]. rewrite contents_fst.
+    rewrite <- Pc, <- (sr_pop _ _ S). exact Lo.
+  - apply gen0_sim. exact Hi.
+  - cbv beta. rewrite gen0_pop. reflexivity.
+  - apply pres_const. exact Hs.
+  - exact H.
+  - exists answers. auto.
+Qed.
+
+Theorem full_simple_every_boundary h0 d pop sels1 sels2 (e : fstate) :
+  finit_ok h0 pop -> Forall (sel_in (length pop) (length pop)) (sels1 ++ sels2) ->
+  fsimple h0 d pop (sels1 ++ sels2) = FOk e ->
+  exists b, fsimple h0 d pop sels1 = FOk b /\
+    InvC evaluate (fview b) /\ length (f_log b) = S (length sels1) /\
+    length (f_pop b) = length pop /\ extends_history (fview b) (fview e).
+Proof.
+  intros Hi Hs H. unfold full_simple in H. destruct (frun_app _ _ _ _ _ _ H) as [b [H1 H2]].
+  exists b. split; [exact H1|]. apply Forall_app in Hs. destruct Hs as [Hs1 _].
+  destruct (full_simple_link h0 d pop sels1 b Hi Hs1 H1) as [answers [L [I0 [Ok [_ S]]]]].
+  destruct (simple_inv evaluate fle _ pop answers I0 Ok) as [Iv [Ll Lp]].
+  split; [eapply InvC_fview; eassumption|]. split; [rewrite (sr_log _ _ S), Ll, L; reflexivity|].
+  split; [rewrite (sr_pop _ _ S); exact Lp|].
+  destruct (frun_history _ (fstep_simple_appends cxpb mutpb) _ _ _ _ H2) as [rs [cs [E1 [E2 _]]]].
+  eapply fview_history; eassumption.
+Qed.
+
+Theorem full_simple_calls h0 d pop sels1 sel (b s' : fstate) :
+  finit_ok h0 pop -> Forall (sel_in (length pop) (length pop)) (sels1 ++ [sel]) ->
+  fsimple h0 d pop sels1 = FOk b -> fstep (S (length sels1)) b sel = FOk s' ->
+  exists s1 off,
+    call_var_and ltb mate_o mut_o cxpb mutpb b (select_by (f_pop b) sel) = (s1, inr off) /\
+    f_pop s' = off /\ length off = length pop /\
+    fcalls_exact b s' (S (length sels1)) (select_by (f_pop b) sel) s1 off.
+Proof.
+  intros Hi Hs H1 H2. apply Forall_app in Hs. destruct Hs as [Hs1 Hs2]. inversion Hs2 as [|? ? Hsel _]; subst.
+  destruct (full_simple_link h0 d pop sels1 b Hi Hs1 H1) as [answers [L [I0 [Ok [_ S]]]]].
+  destruct (simple_inv evaluate fle _ pop answers I0 Ok) as [_ [_ Lp]].
+  rewrite <- Lp in Hsel.
+  destruct (fstep_simple_sim mate_distinct cxpb mutpb _ b _ sel s' S Hsel H2) as [s1 [off [Ev [VPo [Lo [Oa [Da S1]]]]]]].
+  exists s1, off. split; [exact Ev|]. split.
+  { rewrite (sr_pop _ _ S1). unfold step_simple. rewrite finish_gen_pop. unfold var_ans. cbn [a_off]. apply contents_fst. }
+  split; [rewrite Lo, (sr_pop _ _ S); exact Lp|].
+  eapply fcalls_of; [exact S|exact S1|exact VPo| |exact Da].
+  apply (simple_calls evaluate fle _ _ (var_ans sel s1 off) Oa).
+Qed.
+
+End Simple.
+
+(* ------------------------------------------------------------------ *)
+(* eaMuPlusLambda *)
+
+(* the selection answers of a mu+lambda run: generation 1 selects among len(population) + lambda_
+   individuals, the later ones among mu + lambda_ *)
+Definition plus_size (n mu gen : nat) : nat := if gen =? 1 then n else mu.
+Definition sels_plus (n mu lam : nat) (sels : list (list nat)) : Prop :=
+  pres (fun gen => sel_in (plus_size n mu gen + lam) mu) 1 sels.
+
+Section Plus.
+Variable mu : nat.
+Variable lambda_ : Z.
+Variables cxpb mutpb : T.
+Notation lam := (Z.to_nat lambda_).
+Notation fplus := (full_plus evaluate fle ltb leb add one mate_o mut_o lambda_ cxpb mutpb).
+Notation fstep := (fstep_plus evaluate fle ltb leb add one mate_o mut_o lambda_ cxpb mutpb).
+
+Lemma fplus_run_sim n : forall sels gen (fs : fstate) (cs : state) (b : fstate),
+  1 <= gen -> SRel fs cs -> length (s_pop cs) = plus_size n mu gen ->
+  pres (fun gen => sel_in (plus_size n mu gen + lam) mu) gen sels ->
+  frun fstep gen fs sels = FOk b ->
+  exists answers, length answers = length sels /\
+    run_ok (step_plus evaluate fle) (ans_ok_plus mu lam) gen cs answers /\
+    Forall (fun a => off_invalid_distinct (a_off a)) answers /\
+    SRel b (run_from (step_plus evaluate fle) gen cs answers).
+Proof.
+  intros sels gen fs cs b G1 S Pc Hp H.
+  apply (frun_sim fstep (step_plus evaluate fle) (ans_ok_plus mu lam)
+           (fun gen => sel_in (plus_size n mu gen + lam) mu)
+           (fun gen cs => 1 <= gen /\ length (s_pop cs) = plus_size n mu gen)) with (fs := fs); auto.
+  clear. intros gen fs cs x fs' SR [G1 Pc] Hp E. rewrite <- Pc in Hp.
+  destruct (fstep_plus_sim mu lambda_ cxpb mutpb gen fs cs x fs' SR Hp E) as [s1 [off [_ [_ [Lo [Oa [Da S1]]]]]]].
+  exists (var_ans x s1 off). split; [exact Oa|]. split; [exact Da|]. split; [exact S1|]. split; [lia|].
+  unfold step_plus. rewrite finish_gen_pop, select_by_length. unfold var_ans. cbn [a_sel].
+  unfold plus_size. destruct (Nat.eqb_spec (S gen) 1); [lia|]. exact (proj1 Hp).
+Qed.
+
+Lemma full_plus_link h0 d pop sels (b : fstate) :
+  finit_ok h0 pop -> sels_plus (length pop) mu lam sels ->
+  fplus h0 d pop sels = FOk b ->
+  exists answers, length answers = length sels /\
+    init_ok evaluate (st_of h0 pop) pop /\
+    run_ok (step_plus evaluate fle) (ans_ok_plus mu lam) 1 (gen0 evaluate fle (init (st_of h0 pop) pop)) answers /\
+    Forall (fun a => off_invalid_distinct (a_off a)) answers /\
+    SRel b (ea_plus evaluate fle (st_of h0 pop) pop answers).
+Proof.
+  intros Hi Hs H. unfold full_plus in H. destruct (init_sim h0 pop Hi) as [_ [I0 _]].
+  assert (L0 : length (s_pop (gen0 evaluate fle (init (st_of h0 pop) pop))) = plus_size (length pop) mu 1)
+    by (rewrite gen0_pop; reflexivity).
+  destruct (fplus_run_sim (length pop) sels 1 _ _ b (le_n 1) (gen0_sim h0 d pop Hi) L0 Hs H)
+    as [answers [L [Ok [Ds Sf]]]].
+  exists answers. auto.
+Qed.
+
+Theorem full_plus_every_boundary h0 d pop sels1 sels2 (e : fstate) :
+  finit_ok h0 pop -> sels_plus (length pop) mu lam (sels1 ++ sels2) ->
+  fplus h0 d pop (sels1 ++ sels2) = FOk e ->
+  exists b, fplus h0 d pop sels1 = FOk b /\
+    InvC evaluate (fview b) /\ length (f_log b) = S (length sels1) /\
+    length (f_pop b) = match sels1 with [] => length pop | _ => mu end /\
+    extends_history (fview b) (fview e).
+Proof.
+  intros Hi Hs H. unfold full_plus in H. destruct (frun_app _ _ _ _ _ _ H) as [b [H1 H2]].
+  exists b. split; [exact H1|]. apply pres_app in Hs.
+  destruct (full_plus_link h0 d pop sels1 b Hi Hs H1) as [answers [L [I0 [Ok [_ S]]]]].
+  destruct (plus_inv evaluate fle mu lam _ pop answers I0 Ok) as [Iv [Ll Lp]].
+  split; [eapply InvC_fview; eassumption|]. split; [rewrite (sr_log _ _ S), Ll, L; reflexivity|].
+  split.
+  { rewrite (sr_pop _ _ S), Lp. destruct answers, sels1; cbn in L; try discriminate; reflexivity. }
+  destruct (frun_history _ (fstep_plus_appends lambda_ cxpb mutpb) _ _ _ _ H2) as [rs [cs [E1 [E2 _]]]].
+  eapply fview_history; eassumption.
+Qed.
+
+Theorem full_plus_calls h0 d pop sels1 sel (b s' : fstate) :
+  finit_ok h0 pop -> sels_plus (length pop) mu lam (sels1 ++ [sel]) ->
+  fplus h0 d pop sels1 = FOk b -> fstep (S (length sels1)) b sel = FOk s' ->
+  exists s1 off,
+    call_var_or ltb leb add one mate_o mut_o lambda_ cxpb mutpb b (f_pop b) = (s1, inr off) /\
+    f_pop s' = select_by (f_pop b ++ off) sel /\ length off = lam /\ length (f_pop s') = mu /\
+    fcalls_exact b s' (S (length sels1)) (f_pop b) s1 off.
+Proof.
+  intros Hi Hs H1 H2.
+  assert (H : fplus h0 d pop (sels1 ++ [sel]) = FOk s').
+  { unfold full_plus in *. eapply frun_app_intro; [exact H1|]. cbn. rewrite H2. reflexivity. }
+  destruct (full_plus_link h0 d pop sels1 b Hi (pres_app _ _ _ _ Hs) H1) as [answers [L [I0 [Ok [_ S]]]]].
+  destruct (full_plus_every_boundary h0 d pop (sels1 ++ [sel]) [] s' Hi) as [b' [Hb' [_ [_ [Lp' _]]]]];
+    [rewrite app_nil_r; exact Hs|rewrite app_nil_r; exact H|].
+  rewrite H in Hb'. inversion Hb'; subst b'.
+  destruct (plus_inv evaluate fle mu lam _ pop answers I0 Ok) as [_ [_ Lp]].
+  assert (Hsel : sel_in (length (s_pop (ea_plus evaluate fle (st_of h0 pop) pop answers)) + lam) mu sel).
+  { rewrite Lp. unfold sels_plus in Hs. apply pres_app_r in Hs. destruct Hs as [Hs _].
+    replace (match answers with [] => length pop | _ :: _ => mu end) with (plus_size (length pop) mu (1 + length sels1)); [exact Hs|].
+    unfold plus_size. destruct answers, sels1; cbn in L; try discriminate; reflexivity. }
+  destruct (fstep_plus_sim mu lambda_ cxpb mutpb _ b _ sel s' S Hsel H2) as [s1 [off [Ev [VPo [Lo [Oa [Da S1]]]]]]].
+  exists s1, off. split; [exact Ev|]. split.
+  { rewrite (sr_pop _ _ S1). unfold step_plus. rewrite finish_gen_pop. unfold var_ans. cbn [a_off a_sel].
+    rewrite contents_fst, (sr_pop _ _ S). reflexivity. }
+  split; [exact Lo|]. split.
+  { rewrite Lp'. destruct sels1; reflexivity. }
+  eapply fcalls_of; [exact S|exact S1|exact VPo| |exact Da].
+  apply (plus_calls evaluate fle mu lam _ _ (var_ans sel s1 off) Oa).
+Qed.
+
+End Plus.
 
 End Compose.
